@@ -20,6 +20,9 @@ ANCHORS = ['numdifftools.finite_difference:LogRule.diff', 'numdifftools.finite_d
 CAL = bool(os.environ.get('VERIF_CALIBRATE'))
 # A(method, n): >= 30 x the largest err/E* seen on the unchanged tree in the calibration sweeps (see DESIGN.md, C01)
 TOL = {('default',): 3000.0}
+# under the hostile 'collapsing tail' step sequences the unchanged library is fooled on ~1.4 % of the in-scope elements
+# (23 of 1651 in the calibration probe); a breakage of the outlier / selection logic multiplies that (18 % for seeded/S-C02)
+RATE_CAPS = {'selector-picked-rounding-dominated-step': ('hostile_tail_elements_in_scope', 0.06, 100)}
 SENSITIVE = {'powi', 'powr', 'div', 'arctan', 'arcsin', 'arcsinh', 'arctanh', 'tan', 'tanh', 'sqrt'}
 MIN_COUNTERS = dict(quick={'asserted_elements': 1500, 'nontrivial_elements': 400, 'n0_bit_identity_asserted': 100,
                            'complex_valued_asserted': 40, 'array_cases': 300, 'user_step_generator_cases': 500},
@@ -111,6 +114,8 @@ def run_case(case, ctx):
                 ctx.count('observed:nonfinite_result_on_singular_segment(F15/F16 class)')
             continue
         ctx.count('asserted_elements')
+        if case['step'].get('hostile'):
+            ctx.count('hostile_tail_elements_in_scope')
         if case['cplx']:
             ctx.count('complex_valued_asserted')
         t = tol(method, n)
@@ -134,7 +139,9 @@ def run_case(case, ctx):
                        result_is_nan=bool(not np.isfinite(v)), step_kind=case['step']['kind'],
                        complex_valued=case['cplx'], all_steps_eps_sized=eps_steps,
                        chosen_step_beyond_validity_radius=bool(m.chosen_beyond_validity),
-                       error_explained_by_rounding_at_chosen_step=bool(floor > 0 and m.err <= 10 * floor))
+                       error_explained_by_rounding_at_chosen_step=bool(floor > 0 and m.err <= 10 * floor),
+                       majority_of_table_rows_collapsed=bool(m.frac_collapsed >= 0.5),
+                       fraction_of_table_rows_collapsed=round(m.frac_collapsed, 3))
             return
     if len(ctx.samples) < 4:
         ctx.sample(dict(program=prog, x=case['x'], method=method, n=n, order=order, step=case['step'],
